@@ -2948,7 +2948,7 @@ def flatten_command(cmd: T.Iterable[CommandTypes],
         elif isinstance(c, CustomTargetIndex):
             FeatureNew.single_use('CustomTargetIndex for command argument', '0.60', subproject)
             dependencies.append(c.target)
-            c, df, d = flatten_command([File.from_built_file(c.get_subdir(), c.get_filename())], subproject)
+            c, df, d = flatten_command([File.from_built_file(c.get_builddir(), c.get_filename())], subproject)
             final_cmd.extend(c)
             depend_files.extend(df)
             dependencies.extend(d)
